@@ -32,7 +32,7 @@ def parse_T(line):
 
 class C01(Spec):
     pid = "C01"
-    props_modules = ["DSProofs.Props.C01", "DSProofs.Props.C01_Table"]
+    props_modules = ["DSProofs.Props.C01", "DSProofs.Props.C01_Table", "DSProofs.Gen.Theta"]
     harness = "theta_h"
     model_exe = "dsmodel_theta"
     family = "theta"
